@@ -20,6 +20,7 @@ CONFUSABLE_STRINGS = [
     "a: b", "- a", "#c", "'q'", '"q"', "<a/>", "&amp;", "a&b<c>d", "]]>", "\t", "\n", " a ", "a\nb",
     "a\n", "\na", "  ", "é", " ", "\x85", "﻿", "0.1", "1:2", "2001-01-01", "=", "!!str x",
     "*a", "&a", "|", ">", "%", "@", "`", "? a", "yes", "off", "\\", "\\n", "\x7f", "a" * 70,
+    "a\n\nb", "x\n  \ny", "\n\n", " \n \n", "a\n\n", "\n\na", "\t\n\t", "a\n \n\nb\n", "  \n", "\n  ",
 ]
 
 
@@ -29,7 +30,8 @@ def text_strategy(fmt, max_size=12):
     else:
         alpha = st.characters(exclude_categories=("Cs",))
     ascii_heavy = st.characters(min_codepoint=0x20, max_codepoint=0x7E)
-    base = st.one_of(st.text(ascii_heavy, max_size=max_size), st.text(alpha, max_size=max_size))
+    lines = st.lists(st.sampled_from(["", " ", "  ", "a", "b c", "\t", "x"]), min_size=2, max_size=5).map("\n".join)
+    base = st.one_of(st.text(ascii_heavy, max_size=max_size), st.text(alpha, max_size=max_size), lines)
     pool = [s for s in CONFUSABLE_STRINGS if fmt != "xml" or xml_text_ok(s)]
     return st.one_of(base, st.sampled_from(pool))
 
